@@ -310,4 +310,7 @@ pub fn run(rc: &mut RunCtx) {
     for l in ["error_returned", "try_recover_called", "injected_error_surfaced", "fused_checked", "capacity_below_16", "input_adversarial_headers", "input_random_bytes"] {
         rc.require_label("totality", l, 10_000);
     }
+    if !rc.quick() {
+        rc.run_fuzz(Some(STAGES[0]), 400);
+    }
 }
